@@ -16,7 +16,7 @@ pub fn alphabets() -> Vec<Alphabet> {
         Alphabet { id: "A-num", symbols: vec!["0", "1", "9", ".", "e", "E", "_", "x", "b", "o", "+", "-", "a", "s"] },
         Alphabet { id: "A-str", symbols: vec!["\"", "'", "\\", "\n", "/", "*", "0", "1", "_", "a", " ", "\0", "é", "😀"] },
         Alphabet { id: "A-dir", symbols: vec!["pragma", "#pragma", "OPENQASM", "#dim", " ", "\n", "3", ".", "0", ";", "x", "$", "@", "#"] },
-        Alphabet { id: "A-unit", symbols: vec!["1", "ns", "µs", "im", "dt", "s", "m", "u", "µ", ".", "e", "_", " ", "0x"] },
+        Alphabet { id: "A-unit", symbols: vec!["1", "ns", "µs", "im", "dt", "s", "m", "u", "µ", ".", "e", "_", " ", "μ"] },
         // line structure: carriage returns, tabs, form feeds and the line-oriented lexemes
         Alphabet { id: "A-line", symbols: vec!["\r", "\n", "\t", " ", "pragma", "@a", "//", "/*", "*/", "x", ";", "é", "\"", "\u{c}"] },
         // upper-case spellings and literal suffixes
